@@ -91,6 +91,8 @@ def check_case(ctx, c):
         msg = str(e)
         if "dictionary is empty" in msg or "at least" in msg:
             return ctx.skip("rejected input: " + msg[:60])
+        if name in ("Ngram", "Skipgram") and (_empty_vocabulary(c) or (name == "Ngram" and _no_ngram_survives(c))):
+            return ctx.skip("rejected input: every token / n-gram is pruned")
         viol("fit-raises/ValueError", "fit raised ValueError: %s" % msg[:200])
         return
     except Exception as e:
